@@ -106,14 +106,22 @@ Print Assumptions c31_tiebreak_complete.
 
 (* The runs used by the correspondence check (one harness action - schedule, clock advance,
    clear, or "SPark": clear() from a second thread while a callback is kept from returning - then
-   the thread runs until it sleeps; [pref] steers the tie-breaking): the fuel given to the wait loop always suffices and
-   the history satisfies the oracle. *)
-Theorem c31_script : forall res t0 pref sc, 0 <= t0 -> forallb sop_wf sc = true ->
-  match run_script res t0 pref sc with
-  | (s, _, _, fin) => fin = true /\ c31_ok (hist s) = true
+   the thread runs until it sleeps; [pref] steers the tie-breaking; callback cb takes [dur cb] >= 0
+   of clock time, and every pass of the loop reads the clock afresh, as the code does): the
+   history satisfies the oracle ... *)
+Theorem c31_script : forall res dur, (forall cb, 0 <= dur cb) ->
+  forall extra t0 pref sc, 0 <= t0 -> forallb sop_wf sc = true ->
+  match run_script res dur extra t0 pref sc with
+  | (s, _, _, _) => c31_ok (hist s) = true
   end.
 Proof. exact c31_script_lemma. Qed.
 Print Assumptions c31_script.
+
+(* ... and with instantaneous callbacks the fuel given to the wait loop always suffices. *)
+Theorem c31_script_fuel : forall res extra t0 pref sc, 0 <= t0 -> forallb sop_wf sc = true ->
+  snd (run_script res dur0 extra t0 pref sc) = true.
+Proof. exact c31_script_fuel_lemma. Qed.
+Print Assumptions c31_script_fuel.
 
 (* The monitor rejects a history violating any one clause (and accepts a correct one). *)
 Theorem c31_monitor_rejects :
@@ -133,7 +141,7 @@ Print Assumptions c31_monitor_rejects.
    tied), one repeats once and stops on false, and a pending event is cleared. *)
 Theorem c31_nonvacuous :
   forallb sop_wf nv_script = true /\
-  match run_script nv_res 1000000000 [2; 1; 0] nv_script with
+  match run_script nv_res dur0 0 1000000000 [2; 1; 0] nv_script with
   | (s, _, _, fin) =>
       fin = true /\
       filter (fun h => match h with HFire _ _ _ _ => true | HClear _ _ => true | _ => false end) (hist s) =
@@ -142,3 +150,17 @@ Theorem c31_nonvacuous :
   end.
 Proof. exact c31_nonvacuous_lemma. Qed.
 Print Assumptions c31_nonvacuous.
+
+(* Non-vacuity for slow callbacks: two events due in the same wake-up; the first one's callback
+   takes 5 ms of clock time, so the second (repeating, 10 ms) runs at t + 5 ms and, the clock
+   being read per pass, is re-armed from that moment: next run at t + 15 ms, not t + 10 ms. *)
+Theorem c31_nonvacuous_slow :
+  match run_script (fun _ _ => true) nv_slow_dur 4 0 [0; 1]
+          [SSched false 10; SSched true 10; SAdv 10000000; SAdv 5000000; SAdv 4999999; SAdv 1] with
+  | (s, now, _, fin) =>
+      fin = true /\ now = 25000000 /\
+      filter (fun h => match h with HFire _ _ _ _ => true | _ => false end) (hist s) =
+        [HFire 0 0 10000000 true; HFire 1 1 15000000 true; HFire 1 1 25000000 true]
+  end.
+Proof. exact c31_nonvacuous_slow_lemma. Qed.
+Print Assumptions c31_nonvacuous_slow.
